@@ -1,5 +1,6 @@
 import Zstd.Proofs.EncContracts
 import Zstd.Model.EncCoders
+import Zstd.Proofs.MatchValid
 /-
 C02 — compress then decompress returns the input, and the frame is valid Zstandard.
 
@@ -149,6 +150,93 @@ theorem compress_fastest_roundtrip_full_of (R : Huf.EncTable → Spec.Huffman.Ta
   obtain ⟨d', arr, hf, hv, ht⟩ := hmatcher d data
   obtain ⟨frame, c', h1, h2⟩ := compress_fastest_roundtrip_partial R hash compressBlockReal c hc builtinWindow _ data frags hv henc ht
   exact ⟨d', arr, frame, c', hf, h1, h2⟩
+
+/-! ### obligation (2) of `compress_fastest_roundtrip_full_of` discharged by C17
+
+`hmatcher` above quantifies over EVERY value of the type `MG.Driver`.  That is more than a compressor
+can ever hold and it is not satisfiable (`hmatcher_unsatisfiable`: a driver with `slice_size = 0`
+hands out empty spaces), and for the same reason `compress_fastest_roundtrip_full` as worded is too
+strong.  The matcher of a real compressor is always in a `BuiltinState`: created by
+`MatchGeneratorDriver::new(128 KiB, 1)` and driven only through the calls `compress` makes (C17:
+`builtin_state_fresh`, `builtin_no_fault`, `builtin_state_history`).  For those states C17 proves the
+matcher part — `builtinFrame` does not fault and its script is a `ValidMatcher` — for every input;
+read fragmentation does not reach the matcher, and the history of the compressor only enters through
+the state (recycled suffix stores change the PARSE, hence the bytes, never its validity). -/
+
+/-- the states the built-in matcher of a compressor can be in (production constants) -/
+abbrev BuiltinState (d : MG.Driver) : Prop := Zstd.Proofs.MG.BuiltinState Gen.prodSliceSize Gen.prodMaxSlices d
+
+/-- the matcher half of `hmatcher` cannot hold for all values of `MG.Driver` -/
+theorem hmatcher_unsatisfiable :
+    ¬ (∀ (d : MG.Driver) (data : List Byte), ∃ d' arr, builtinFrame .fastest d data = .ok (d', arr) ∧
+        ValidMatcher builtinWindow (scriptOfArray arr Gen.prodSliceSize) data) := by
+  intro h
+  obtain ⟨d', arr, hrun, hv⟩ := h (MG.Driver.new 0 0) [1]
+  have hrun' : builtinFrame .fastest (MG.Driver.new 0 0) [1] = .ok (MG.Driver.new 0 0, #[⟨0, {}⟩]) := by rfl
+  rw [hrun'] at hrun
+  simp only [Except.ok.injEq, Prod.mk.injEq] at hrun
+  obtain ⟨_, rfl⟩ := hrun
+  have := hv.space_pos 0
+  simp [scriptOfArray] at this
+
+/-- … and `compress_fastest_roundtrip_full` as worded (every value of `MG.Driver`) is FALSE — not
+because of the code but because of the quantifier: a driver value with `slice_size = 0` (which no
+compressor can hold) hands out an empty space, `compress` then frames the empty string, and the frame
+does not decode to the input `[1]`.  `compress_fastest_roundtrip_builtin` below is the statement
+over the states a compressor can be in. -/
+theorem compress_fastest_roundtrip_full_false : ¬ compress_fastest_roundtrip_full := by
+  intro h
+  obtain ⟨d', arr, frame, c', h1, h2, h3⟩ := h false (MG.Driver.new 0 0) (Compressor.fresh .fastest) rfl [1] []
+  have hrun' : builtinFrame .fastest (MG.Driver.new 0 0) [1] = .ok (MG.Driver.new 0 0, #[⟨0, {}⟩]) := by rfl
+  rw [hrun'] at h1
+  simp only [Except.ok.injEq, Prod.mk.injEq] at h1
+  obtain ⟨_, rfl⟩ := h1
+  have hf : (compressFrame false compressBlockReal (Compressor.fresh .fastest) builtinWindow
+      (scriptOfArray #[⟨0, {}⟩] Gen.prodSliceSize) [1] []).map (·.1) = .ok [40, 181, 47, 253, 0, 56, 1, 0, 0] := by
+    decide +kernel
+  rw [h2] at hf
+  simp only [Except.map, Except.ok.injEq] at hf
+  subst hf
+  have hd : (Spec.decodeFrame [40, 181, 47, 253, 0, 56, 1, 0, 0]).map (·.content) = some [] := by decide +kernel
+  rw [h3] at hd
+  simp [specResult] at hd
+
+/-- **the built-in matcher satisfies `ValidMatcher`** for every input and every state the compressor's
+protocol can produce; the state afterwards is such a state again -/
+theorem builtin_matcher_valid (d : MG.Driver) (hd : BuiltinState d) (data : List Byte) :
+    ∃ d' arr, builtinFrame .fastest d data = .ok (d', arr) ∧ BuiltinState d' ∧
+      ValidMatcher builtinWindow (scriptOfArray arr Gen.prodSliceSize) data :=
+  Zstd.Proofs.MG.builtinFrame_fastest_valid Gen.prodSliceSize Gen.prodMaxSlices (by decide) (by decide) (by decide)
+    (by decide) d hd data
+
+/-- C02 at full strength for `Fastest` over the states a compressor can be in -/
+def compress_fastest_roundtrip_builtin : Prop :=
+  ∀ (hash : Bool) (d : MG.Driver) (c : Compressor Huf.EncTable), BuiltinState d → c.level = .fastest →
+    ∀ (data : List Byte) (frags : List Nat),
+    ∃ d' arr frame c', builtinFrame .fastest d data = .ok (d', arr) ∧ BuiltinState d' ∧
+      compressFrame hash compressBlockReal c builtinWindow (scriptOfArray arr Gen.prodSliceSize) data frags
+        = .ok (frame, c') ∧
+      Spec.decodeFrame frame = some (specResult hash builtinWindow data frame)
+
+/-- … follows from the TWO remaining obligations: the block-encoder contract (C16 over C12/C13) and
+"the real coders do not fault on the parses of the built-in matcher".  The matcher obligation is
+discharged by C17. -/
+theorem compress_fastest_roundtrip_builtin_of (R : Huf.EncTable → Spec.Huffman.Table → Prop)
+    (henc : BlockEncCorrect R builtinWindow (declaredWindow builtinWindow) compressBlockReal)
+    (hcoders : ∀ (d : MG.Driver) (data : List Byte) d' arr, BuiltinState d →
+      builtinFrame .fastest d data = .ok (d', arr) →
+      ∀ i st, ∃ r, compressBlockReal (scriptOfArray arr Gen.prodSliceSize i).parse st = .ok r) :
+    compress_fastest_roundtrip_builtin := by
+  intro hash d c hd hc data frags
+  obtain ⟨d', arr, hf, hd', hv⟩ := builtin_matcher_valid d hd data
+  obtain ⟨frame, c', h1, h2⟩ := compress_fastest_roundtrip_partial R hash compressBlockReal c hc builtinWindow _ data
+    frags hv henc (hcoders d data d' arr hd hf)
+  exact ⟨d', arr, frame, c', hf, hd', h1, h2⟩
+
+/-- a new compressor, and a compressor after any history of frames, is in a `BuiltinState` -/
+theorem builtin_state_of_history (jobs : List (Level × List Byte)) :
+    BuiltinState (Zstd.Proofs.MG.builtinHistory jobs (MG.Driver.new Gen.prodSliceSize Gen.prodMaxSlices)) :=
+  Zstd.Proofs.MG.builtinHistory_state _ _ (by decide) (by decide) jobs _ (Zstd.Proofs.MG.builtinState_new _ _)
 
 /-- unimplemented levels: an empty input is framed before the level is looked at (no panic, valid
 frame of the empty string) … -/
